@@ -5,7 +5,8 @@ from itertools import product
 ID = "C20"
 RULE = ("operation histories on the real classes (random, plus all sequences of length<=L over n<=3 in the "
         "'exhaustive' strata); every call is judged against a shadow model kept by the harness (list of sets / "
-        "plain list) and by icontract invariants+post-conditions attached to the classes; a case is non-trivial "
+        "plain list) - only a wrong public answer is a violation; icontract invariants+post-conditions on the "
+        "representation are attached to the classes as anomaly detectors (events); a case is non-trivial "
         "if it has >=1 successful merge or >=1 update, and >=1 query after it; distinct = distinct op sequence")
 ASSUMPTIONS = ["indices in range (documented domain)", "integer or dyadic-rational deltas so that float sums are exact"]
 STRATA = [
@@ -190,6 +191,17 @@ def _run_uf(n, ops, obs):
                 return merges, q_after
     if uf.component_count != len(part):
         obs.violate("uf.final-count", f"{uf.component_count} vs {len(part)}")
+    got = uf.component_sizes()
+    if sorted(got) != sorted(len(s) for s in part):
+        obs.violate("uf.final-sizes", f"{got} vs {sorted(len(s) for s in part)}")
+    got = uf.get_components()
+    if sorted(map(sorted, got)) != sorted(map(sorted, part)):
+        obs.violate("uf.final-components", f"{got}")
+    reps = {}
+    for a in range(n):
+        reps.setdefault(uf.find(a), set()).add(a)
+    if sorted(map(sorted, reps.values())) != sorted(map(sorted, part)) or any(r not in m for r, m in reps.items()):
+        obs.violate("uf.final-find", f"find classes {sorted(map(sorted, reps.values()))}")
     return merges, q_after
 
 
@@ -201,8 +213,8 @@ def _run_ft(init, ops, obs):
         given = list(init)  # the caller's own list object
         ft = _ds.FenwickTree(given)
         arr = list(init)
-        if _mon.ft_array(ft) != arr:
-            obs.violate("ft.init", f"constructed from {init}, represents {_mon.ft_array(ft)}")
+        if any(ft.range_sum(i, i) != arr[i] for i in range(len(arr))):
+            obs.violate("ft.init", f"constructed from {init}, range_sum(i,i) gives {[ft.range_sum(i, i) for i in range(len(arr))]}")
         if given != arr:
             obs.violate("ft.init-modifies-callers-list", f"list passed to the constructor became {given}, was {arr}")
         # the tree must behave like an array that *received* the initial values: later changes to the
@@ -237,10 +249,14 @@ def _run_ft(init, ops, obs):
 
 
 def _drain(obs):
-    for name, detail in _mon.drain():
-        obs.violate("contract:" + name, detail)
+    """Broken representation conditions are anomalies (events); returns how many were seen."""
+    an = _mon.drain()
+    for name, detail in an:
+        obs.event("anomaly.contract:" + name)
+        obs.mech.add("contract:" + name)
     for k, v in _mon.take_counts().items():
         obs.event(k, v)
+    return len(an)
 
 
 def run(case, obs):
